@@ -402,4 +402,16 @@ open Percival.Model.NetbufStep Percival.Spec.NetbufMon in
 example : (runOps {} [.rWait 5000, .netDeliver (List.replicate 6000 7), .spin, .rConsume 4999, .rWait 8192, .netEof,
     .spin]).1.r.buflen = 8192 := by decide +kernel
 
+open Percival.Model.NetbufStep in
+/-- … and no line of `pmodel netbuf` is ever `failed oob` / `failed abort` / `failed contract` / `model-fuel`:
+the rejection "event loop failed or unreadable answer" of the monitor is never caused by the model. -/
+theorem exec_no_failed_line (ops : List Spec.NetbufMon.Op) :
+    ∀ o ∈ (runOps {} ops).2, ∀ f, o ≠ Out.failed f :=
+  Proofs.NetbufMonSound.run_no_failed ops {} {} Proofs.NetbufMonSound.sound_init
+
+/- the statement is about real outputs: a state whose latch is set does print `failed` -/
+open Percival.Model.NetbufStep in
+example : (stepOp { bad := some .fuel } .spin).2.ans = .other ∧
+    (∃ f, (runOps { bad := some .oob } [.rPeek]).2 = [Out.failed f]) := ⟨rfl, ⟨_, rfl⟩⟩
+
 end Percival.C07
